@@ -437,9 +437,23 @@ Fixpoint uniform (p : plan) : bool :=
 Definition jt_wf (p : plan) : bool :=
   inner_only p && nodupb (schema p) && filters_scoped p && uniform p.
 
+(** the meaning of a normal form: the product of the leaves, filtered by conditions and filters *)
+Definition jl (p : plan) : list plan := fst (fst (jnf p)).
+Definition jc (p : plan) : list (var * var) := snd (fst (jnf p)).
+Definition jf (p : plan) : list expr := snd (jnf p).
+
+Definition pair_holds (m : row) (c : var * var) : bool := key_eq (lookup (fst c) m) (lookup (snd c) m).
+
+Definition jt_pred (G : graph) (p : plan) (m : row) : bool :=
+  forallb (pair_holds m) (jc p) && forallb (fun e => passes G e m) (jf p).
+
+Definition jt_base (G : graph) (p : plan) : list row := cross_all (map (sem G) (jl p)).
+
 (** ** The whole pass *)
 (** [reorder] stands for whatever [reorder_joins] returns under the statistics at hand *)
 Definition optimize (fp jr pp : bool) (reorder : plan -> plan) (p : plan) : plan :=
   let p := if fp then pfd p else p in
   let p := if jr then reorder p else p in
   if pp then ppd p else p.
+
+Definition after_fp (fp : bool) (p : plan) : plan := if fp then pfd p else p.
